@@ -11,7 +11,8 @@
    (That finding such a c without the key is infeasible is cryptography.) *)
 From Coq Require Import List NArith Bool Arith Lia ZifyN ZifyNat ZifyBool.
 From Tink Require Import Bytes AeadFrame AeadFrameProofs Ctr CtrProofs EtM EtMProofs
-  Polyval GcmSiv GcmSivProofs Cmac Xaes XaesProofs Envelope EnvelopeProofs AeadKeyset AeadKeysetProofs.
+  Polyval GcmSiv GcmSivProofs Cmac Xaes XaesProofs Envelope EnvelopeProofs AeadKeyset AeadKeysetProofs
+  Mutation EtMProofs2 AeadFrameProofs2 XaesSivMutation EnvelopeDek EnvelopeProofs2.
 Import ListNotations.
 Open Scope N_scope.
 
@@ -387,3 +388,383 @@ Example C02_nonvacuous :
    aesgcm_dec (toy_open gcm_seal_max) (output_prefix VTink 258) [7] (firstn 32 c) [9] = Err /\
    aesgcm_dec (toy_open gcm_seal_max) (output_prefix VCrunchy 258) [7] c [9] = Err).
 Proof. split; [exact (toy_laws gcm_seal_max)|]. vm_compute. repeat split. Qed.
+
+(* ========================================================================= *)
+(* Stretch round (audit item 3 and the C02 rows): "a valid ciphertext with any bit
+   flipped, any truncation or extension, another key's or variant's prefix, or
+   presented with different associated data yields an error" — as reductions to the
+   authenticity of the primitive (which is cryptography, not a theorem), with
+   everything else proved.                                                      *)
+
+(* the mutation classes of the property are pairs different from the original one *)
+Theorem C02_mutation_classes_differ :
+  forall c ad c' ad', mutant c ad c' ad' -> (c', ad') <> (c, ad).
+Proof. exact mutant_differs. Qed.
+Print Assumptions C02_mutation_classes_differ.
+
+Theorem C02_bit_flip_is_a_mutation :
+  forall c i j, (i < length c)%nat ->
+    flip_bit i j c <> c /\ length (flip_bit i j c) = length c /\
+    nth i (flip_bit i j c) 0 = N.lxor (nth i c 0) (2 ^ j).
+Proof.
+  intros c i j H. split; [apply flip_bit_differs; exact H|].
+  split; [apply set_nth_length; exact H|apply nth_set_nth; exact H].
+Qed.
+Print Assumptions C02_bit_flip_is_a_mutation.
+
+(* ------------------------------------------------------------------------- *)
+(* AES-CTR-HMAC: proved from the model, only the output lengths of AES and HMAC
+   assumed.  tmac k x = HMAC(hmac key, x) truncated to the tag size;
+   hmac_forgery k x x' tag' := x' <> x /\ tmac k x' = tag'.
+   If Encrypt(p, ad) = c (under any IV) and Decrypt accepts (c', ad') <> (c, ad) (AD below
+   2^61 bytes, where the 64-bit bit-length cannot wrap), then the tag of c' is a valid
+   truncated HMAC of a MAC input x' DIFFERENT from the only input x that Encrypt
+   authenticated: an existential forgery (with x' and the tag equation explicit).  *)
+Theorem C02_aesctrhmac_accepted_mutant_is_hmac_forgery :
+  forall (aes hmac : bytes -> bytes -> bytes) (hlen : nat),
+    (forall k b, length (aes k b) = 16%nat) -> (forall k m, length (hmac k m) = hlen) ->
+    forall prefix k iv p ad c c' ad' p',
+      (ek_tag k <= hlen)%nat -> lenN ad < 2 ^ 61 -> lenN ad' < 2 ^ 61 ->
+      etm_enc aes hmac prefix k iv p ad = Ok c -> (c', ad') <> (c, ad) ->
+      let x := mac_input ad (iv ++ aes_ctr (aes (ek_aes k)) iv p) in
+      (etm_dec aes hmac prefix k c' ad' = Ok p' ->
+         hmac_forgery hmac k x (mac_input ad' (payload_of (length prefix) k c')) (tag_of k c') /\
+         tmac hmac k x = tag_of k c) /\
+      (prefix = [] -> etm_subtle_dec aes hmac k c' ad' = Ok p' ->
+         hmac_forgery hmac k x (mac_input ad' (payload_of 0 k c')) (tag_of k c') /\
+         tmac hmac k x = tag_of k c).
+Proof.
+  intros aes hmac hlen HA HH prefix k iv p ad c c' ad' p' Ht Ha Ha' He Hne x. split.
+  - intros Hd. exact (etm_dec_accepted_mutant_is_forgery aes hmac hlen HA HH prefix k iv p ad c c' ad' p' Ht Ha Ha' He Hd Hne).
+  - intros -> Hd. rewrite (etm_subtle_dec_eq aes hmac hlen HA HH) in Hd by exact Ht.
+    exact (etm_dec_accepted_mutant_is_forgery aes hmac hlen HA HH [] k iv p ad c c' ad' p' Ht Ha Ha' He Hd Hne).
+Qed.
+Print Assumptions C02_aesctrhmac_accepted_mutant_is_hmac_forgery.
+
+(* hence: a modified pair is an ERROR unless its tag is a valid truncated HMAC of some MAC
+   input other than the authenticated one (the premise is the unforgeability of HMAC for
+   the presented tag; it carries the cryptography) *)
+Theorem C02_aesctrhmac_mutant_rejected_without_forgery :
+  forall (aes hmac : bytes -> bytes -> bytes) (hlen : nat),
+    (forall k b, length (aes k b) = 16%nat) -> (forall k m, length (hmac k m) = hlen) ->
+    forall prefix k iv p ad c c' ad',
+      (ek_tag k <= hlen)%nat -> lenN ad < 2 ^ 61 -> lenN ad' < 2 ^ 61 ->
+      etm_enc aes hmac prefix k iv p ad = Ok c -> (c', ad') <> (c, ad) ->
+      (forall x', ~ hmac_forgery hmac k (mac_input ad (iv ++ aes_ctr (aes (ek_aes k)) iv p)) x' (tag_of k c')) ->
+      etm_dec aes hmac prefix k c' ad' = Err.
+Proof.
+  intros aes hmac hlen HA HH prefix k iv p ad c c' ad' Ht Ha Ha' He Hne Hnf.
+  exact (etm_mutant_rejected_without_forgery aes hmac hlen HA HH prefix k iv p ad c c' ad' Ht Ha Ha' He Hne Hnf).
+Qed.
+Print Assumptions C02_aesctrhmac_mutant_rejected_without_forgery.
+
+(* with NO assumption on HMAC: whatever is confined to the tag (any flip in the last
+   tag-size bytes) is an error — the whole tag is compared; and under a second-preimage
+   law for the truncated HMAC at the authenticated input, every modification that keeps
+   the tag bytes (flips in IV or body, other AD, ...) is an error *)
+Theorem C02_aesctrhmac_tag_mutations_rejected :
+  forall (aes hmac : bytes -> bytes -> bytes) (hlen : nat),
+    (forall k b, length (aes k b) = 16%nat) -> (forall k m, length (hmac k m) = hlen) ->
+    forall prefix k iv p ad c, (ek_tag k <= hlen)%nat ->
+      etm_enc aes hmac prefix k iv p ad = Ok c ->
+      (forall c', length c' = length c ->
+         firstn (length c - ek_tag k) c' = firstn (length c - ek_tag k) c -> c' <> c ->
+         etm_dec aes hmac prefix k c' ad = Err) /\
+      (forall c' ad', lenN ad < 2 ^ 61 -> lenN ad' < 2 ^ 61 ->
+         (c', ad') <> (c, ad) -> tag_of k c' = tag_of k c ->
+         no_second_preimage hmac k (mac_input ad (iv ++ aes_ctr (aes (ek_aes k)) iv p)) ->
+         etm_dec aes hmac prefix k c' ad' = Err).
+Proof.
+  intros aes hmac hlen HA HH prefix k iv p ad c Ht He. split.
+  - intros c' H1 H2 H3. exact (etm_tag_only_mutation_rejected aes hmac hlen HA HH prefix k iv p ad c c' Ht He H1 H2 H3).
+  - intros c' ad' Ha Ha' Hne Htag Hlaw.
+    exact (etm_tag_kept_mutation_rejected aes hmac hlen HA HH prefix k iv p ad c c' ad' Ht Ha Ha' He Hne Htag Hlaw).
+Qed.
+Print Assumptions C02_aesctrhmac_tag_mutations_rejected.
+
+(* the 2^61 bound is necessary: at 2^61 bytes of AD the 64-bit bit length wraps to 0 and two
+   different (ad, payload) pairs give the same MAC input (no Go slice is that long) *)
+Theorem C02_etm_mac_input_ambiguous_at_2_61_refuted :
+  exists ad1 x1 ad2 x2, lenN ad1 = 2 ^ 61 /\ (ad1, x1) <> (ad2, x2) /\ mac_input ad1 x1 = mac_input ad2 x2.
+Proof. exact mac_input_not_injective_at_2_61. Qed.
+Print Assumptions C02_etm_mac_input_ambiguous_at_2_61_refuted.
+
+(* ------------------------------------------------------------------------- *)
+(* AES-GCM, ChaCha20-Poly1305, XChaCha20-Poly1305 (framing around cipher.AEAD).
+   The five Decrypt bodies are one function, na_dec_canon of model/AeadFrame.v ... *)
+Theorem C02_nonce_decrypt_bodies_are_one_function :
+  forall (open_ : aead_open) prefix key c ad,
+    aesgcm_dec open_ prefix key c ad = na_dec_canon open_ 12 16 None None prefix key c ad /\
+    chacha_dec open_ prefix key c ad =
+      na_dec_canon open_ 12 16 (Some chacha_open_max) (Some chacha_tink_ct_max) prefix key c ad /\
+    chacha_subtle_dec open_ key c ad =
+      na_dec_canon open_ 12 16 (Some chacha_open_max) (Some chacha_tink_ct_max) [] key c ad /\
+    (lenN c <= MaxInt -> xchacha_dec open_ prefix key c ad =
+      na_dec_canon open_ 24 16 (Some chacha_open_max) (Some chacha_tink_ct_max) prefix key c ad) /\
+    xchacha_subtle_dec open_ key c ad =
+      na_dec_canon open_ 24 16 (Some chacha_open_max) (Some chacha_tink_ct_max) [] key c ad.
+Proof. exact nonce_dec_bodies_canon. Qed.
+Print Assumptions C02_nonce_decrypt_bodies_are_one_function.
+
+(* ... which, for ARBITRARY Seal/Open (no law), is a framing rejection (too short / prefix
+   mismatch) or exactly ONE call of Open on the (nonce', ad', body') parsed from c'; and for
+   (c', ad') different from Encrypt's (c, ad) that triple differs from the one Encrypt sealed.
+   nonce_of ivlen pl c = c[pl : pl+ivlen], body_of ivlen pl c = c[pl+ivlen :],
+   open_t = Open behind Tink's size check (an error, never a panic, above 2^38-48). *)
+Theorem C02_nonce_aead_mutant_dichotomy :
+  forall (seal : aead_seal) (open_ : aead_open) ivlen taglen seal_max open_max ct_max tink_max,
+    forall prefix key iv p ad c c' ad',
+      length iv = ivlen -> na_enc seal seal_max tink_max prefix key iv p ad = Ok c -> (c', ad') <> (c, ad) ->
+      let n' := nonce_of ivlen (length prefix) c' in
+      let b' := body_of ivlen (length prefix) c' in
+      (((length c' < length prefix + ivlen + taglen)%nat \/ firstn (length prefix) c' <> prefix) /\
+       na_dec_canon open_ ivlen taglen open_max ct_max prefix key c' ad' = Err) \/
+      (na_dec_canon open_ ivlen taglen open_max ct_max prefix key c' ad' = open_t open_ taglen open_max ct_max key n' ad' b' /\
+       (n', ad', b') <> (iv, ad, seal key iv ad p)).
+Proof.
+  intros seal open_ ivlen taglen seal_max open_max ct_max tink_max prefix key iv p ad c c' ad' Hiv He Hne.
+  exact (na_mutant_dichotomy seal open_ ivlen taglen seal_max open_max ct_max tink_max prefix key iv p ad c c' ad' Hiv He Hne).
+Qed.
+Print Assumptions C02_nonce_aead_mutant_dichotomy.
+
+(* so an accepted mutant is a forgery against the primitive: Open returned a plaintext for a
+   (nonce, ad, ciphertext) triple other than the one that was sealed; and a mutant whose
+   parsed triple the primitive rejects is an error (never a plaintext, never a panic) *)
+Theorem C02_nonce_aead_accepted_mutant_is_forgery :
+  forall (seal : aead_seal) (open_ : aead_open) ivlen taglen seal_max open_max ct_max tink_max,
+    forall prefix key iv p ad c c' ad',
+      length iv = ivlen -> na_enc seal seal_max tink_max prefix key iv p ad = Ok c -> (c', ad') <> (c, ad) ->
+      let n' := nonce_of ivlen (length prefix) c' in
+      let b' := body_of ivlen (length prefix) c' in
+      (forall p', na_dec_canon open_ ivlen taglen open_max ct_max prefix key c' ad' = Ok p' ->
+         c' = prefix ++ n' ++ b' /\ (n', ad', b') <> (iv, ad, seal key iv ad p) /\ open_ key n' ad' b' = Some p') /\
+      ((forall m, open_max = Some m -> exists m', ct_max = Some m' /\ m' <= m) ->
+       open_ key n' ad' b' = None ->
+       na_dec_canon open_ ivlen taglen open_max ct_max prefix key c' ad' = Err).
+Proof.
+  intros seal open_ ivlen taglen seal_max open_max ct_max tink_max prefix key iv p ad c c' ad' Hiv He Hne n' b'. split.
+  - intros p' Hd.
+    destruct (na_accepted_mutant_is_forgery seal open_ ivlen taglen seal_max open_max ct_max tink_max prefix key iv p ad c c' ad' p' Hiv He Hne Hd)
+      as [Hs [Ht Ho]]. auto.
+  - intros Hnp Ho. apply (na_mutant_rejected_if_open_rejects open_ ivlen taglen open_max ct_max Hnp). right. exact Ho.
+Qed.
+Print Assumptions C02_nonce_aead_accepted_mutant_is_forgery.
+
+(* under the uniqueness law of the standard AEAD (open_only_seal_law: Open accepts only
+   Seal's outputs.  THIS LAW CARRIES THE PRIMITIVE'S AUTHENTICITY MECHANISM — the whole-tag
+   recompute-and-compare inside the standard library's Open, which is not modelled; that
+   Seal outputs cannot be produced without the key is cryptography) an accepted mutant is
+   itself Encrypt's output for a different (iv, plaintext, ad); with the body-injectivity
+   law of a stream-cipher AEAD (the first |p| bytes of Seal determine p: GCM, ChaCha20-
+   Poly1305), every modification confined to the 16-byte tag releases no plaintext *)
+Theorem C02_nonce_aead_mutants_under_the_laws :
+  forall (seal : aead_seal) (open_ : aead_open) ivlen seal_max open_max ct_max tink_max,
+    seal_len_law seal 16 -> open_only_seal_law seal open_ seal_max ->
+    forall prefix key iv p ad c,
+      length iv = ivlen -> na_enc seal seal_max tink_max prefix key iv p ad = Ok c ->
+      (forall c' ad' p', (c', ad') <> (c, ad) ->
+         na_dec_canon open_ ivlen 16 open_max ct_max prefix key c' ad' = Ok p' ->
+         exists iv', length iv' = ivlen /\ (iv', p', ad') <> (iv, p, ad) /\
+                     c' = prefix ++ iv' ++ seal key iv' ad' p' /\ lenN p' <= seal_max) /\
+      (seal_body_inj seal ->
+       forall c', length c' = length c -> firstn (length c - 16) c' = firstn (length c - 16) c -> c' <> c ->
+         forall p', na_dec_canon open_ ivlen 16 open_max ct_max prefix key c' ad <> Ok p').
+Proof.
+  intros seal open_ ivlen seal_max open_max ct_max tink_max HL HU prefix key iv p ad c Hiv He. split.
+  - intros c' ad' p' Hne Hd.
+    exact (na_accepted_mutant_is_other_encryption seal open_ ivlen 16 seal_max open_max ct_max tink_max prefix key iv p ad c c' ad' p' HU Hiv He Hne Hd).
+  - intros HB c' H1 H2 H3 p'.
+    exact (na_tag_only_mutation_rejected seal open_ ivlen 16 seal_max open_max ct_max tink_max prefix key iv p ad c c' HL HU HB Hiv He H1 H2 H3 p').
+Qed.
+Print Assumptions C02_nonce_aead_mutants_under_the_laws.
+
+(* the mutation classes of the property one by one, for any framed ciphertext
+   c = prefix || iv || ct (Encrypt's output: ct = Seal(key, iv, ad, p)), |ct| >= tag size:
+   where the modification lands.  set_nth i b c = c with byte i replaced by b. *)
+Theorem C02_nonce_aead_mutation_table :
+  forall (open_ : aead_open) ivlen taglen open_max ct_max prefix key iv ct ad,
+    length iv = ivlen -> (taglen <= length ct)%nat ->
+    let c := prefix ++ iv ++ ct in
+    let pl := length prefix in
+    let D := na_dec_canon open_ ivlen taglen open_max ct_max prefix key in
+    let O := open_t open_ taglen open_max ct_max key in
+    (* one byte overwritten / one bit flipped: in the prefix, in the IV, in body or tag *)
+    (forall i b, (i < length c)%nat -> nth i c 0 <> b ->
+       ((i < pl)%nat -> D (set_nth i b c) ad = Err) /\
+       ((pl <= i < pl + ivlen)%nat -> D (set_nth i b c) ad = O (set_nth (i - pl) b iv) ad ct /\ set_nth (i - pl) b iv <> iv) /\
+       ((pl + ivlen <= i)%nat -> D (set_nth i b c) ad = O iv ad (set_nth (i - pl - ivlen) b ct) /\
+                                 set_nth (i - pl - ivlen) b ct <> ct)) /\
+    (* truncation at every cut point *)
+    (forall n, (n < length c)%nat ->
+       ((n < pl + ivlen + taglen)%nat -> D (firstn n c) ad = Err) /\
+       ((pl + ivlen + taglen <= n)%nat -> D (firstn n c) ad = O iv ad (firstn (n - pl - ivlen) ct) /\
+                                          (length (firstn (n - pl - ivlen) ct) < length ct)%nat)) /\
+    (* extension *)
+    (forall s, s <> [] -> D (c ++ s) ad = O iv ad (ct ++ s) /\ ct ++ s <> ct) /\
+    (* other associated data *)
+    (forall ad', D c ad' = O iv ad' ct) /\
+    (* another key's / variant's prefix of the same length; the prefix stripped *)
+    (forall prefix', length prefix' = length prefix -> prefix' <> prefix -> D (prefix' ++ iv ++ ct) ad = Err) /\
+    (firstn pl (iv ++ ct) <> prefix -> D (iv ++ ct) ad = Err).
+Proof.
+  intros open_ ivlen taglen open_max ct_max prefix key iv ct ad Hiv Hct c pl D O.
+  split; [intros i b Hi Hb; exact (table_byte open_ ivlen taglen open_max ct_max prefix key iv ct ad Hiv Hct i b Hi Hb)|].
+  split; [intros n Hn; exact (table_cut open_ ivlen taglen open_max ct_max prefix key iv ct ad Hiv Hct n Hn)|].
+  split; [intros s Hs; exact (table_ext open_ ivlen taglen open_max ct_max prefix key iv ct ad Hiv Hct s Hs)|].
+  split; [intros ad'; exact (table_ad open_ ivlen taglen open_max ct_max prefix key iv ct Hiv Hct ad')|].
+  split; [intros prefix' H1 H2; exact (table_prefix open_ ivlen taglen open_max ct_max prefix key iv ct ad prefix' H1 H2)|].
+  intros H. apply na_wrong_prefix. exact H.
+Qed.
+Print Assumptions C02_nonce_aead_mutation_table.
+
+(* ------------------------------------------------------------------------- *)
+(* XAES-256-GCM: framing rejection, or ONE AES-GCM Open under the key derived (two AES-CMACs)
+   from the salt bytes parsed from c'; the parsed (salt', iv', ad', body') differs from what
+   Encrypt used and sealed.  No law about GCM. *)
+Theorem C02_xaesgcm_mutant_dichotomy :
+  forall (aes : bytes -> bytes -> bytes) (seal : aead_seal) (open_ : aead_open),
+    (forall k b, length (aes k b) = 16%nat) ->
+    forall ss prefix key salt iv p ad c c' ad',
+      length salt = ss -> length iv = 12%nat ->
+      xaes_enc aes seal ss prefix key (salt ++ iv) p ad = Ok c -> (c', ad') <> (c, ad) ->
+      let pl := length prefix in
+      let salt' := firstn ss (skipn pl c') in
+      let iv' := firstn 12 (skipn (pl + ss) c') in
+      let b' := skipn (pl + ss + 12) c' in
+      (((length c' < pl + ss + 12 + 16)%nat \/ firstn pl c' <> prefix) /\
+       xaes_dec aes open_ ss prefix key c' ad' = Err) \/
+      (xaes_dec aes open_ ss prefix key c' ad' = open_o open_ 16 None (pmk aes key salt') iv' ad' b' /\
+       (salt', iv', ad', b') <> (salt, iv, ad, seal (pmk aes key salt) iv ad p) /\
+       (forall p', xaes_dec aes open_ ss prefix key c' ad' = Ok p' -> open_ (pmk aes key salt') iv' ad' b' = Some p')).
+Proof.
+  intros aes seal open_ HA ss prefix key salt iv p ad c c' ad' Hs Hiv He Hne pl salt' iv' b'.
+  destruct (xaes_mutant_dichotomy aes seal open_ HA ss prefix key salt iv p ad c c' ad' Hs Hiv He Hne) as [H|[H1 H2]];
+    [left; exact H|right]. split; [exact H1|]. split; [exact H2|].
+  intros p' Hd. exact (proj2 (xaes_accepted_mutant_is_forgery aes seal open_ HA ss prefix key salt iv p ad c c' ad' p' Hs Hiv He Hne Hd)).
+Qed.
+Print Assumptions C02_xaesgcm_mutant_dichotomy.
+
+(* ... and XAES-256-GCM Decrypt IS the canonical AES-GCM Decrypt of the same bytes with the salt
+   bytes of c' appended to the output prefix and the key derived from them: the mutation table
+   above applies verbatim (prefix := prefix || salt) to every modification outside the salt *)
+Theorem C02_xaesgcm_decrypt_is_aesgcm_decrypt_under_the_derived_key :
+  forall (aes : bytes -> bytes -> bytes) (open_ : aead_open),
+    (forall k b, length (aes k b) = 16%nat) ->
+    forall ss prefix key c' ad',
+      let salt' := firstn ss (skipn (length prefix) c') in
+      (length prefix + ss <= length c')%nat -> firstn (length prefix) c' = prefix ->
+      xaes_dec aes open_ ss prefix key c' ad' =
+      na_dec_canon open_ 12 16 None None (prefix ++ salt') (pmk aes key salt') c' ad'.
+Proof.
+  intros aes open_ HA ss prefix key c' ad' salt' Hl Hp.
+  exact (xaes_dec_as_gcm aes (fun _ _ _ _ => []) open_ HA ss prefix key c' ad' Hl Hp).
+Qed.
+Print Assumptions C02_xaesgcm_decrypt_is_aesgcm_decrypt_under_the_derived_key.
+
+(* AES-GCM-SIV (the whole scheme is in the model; only |AES(k,b)| = 16 assumed): Decrypt is a
+   framing/size rejection or the comparison of the presented tag with the recomputed one; an
+   accepted (c', ad') <> (c, ad) exhibits a (nonce', plaintext', ad') different from
+   (nonce, p, ad) with its valid synthetic-IV tag — a forgery against the RFC 8452 tag
+   function tagf = AES(encKey, (POLYVAL(authKey, ...) xor nonce) & 0x7f..); without one,
+   the mutant is an error *)
+Theorem C02_aesgcmsiv_mutants :
+  forall (aes : bytes -> bytes -> bytes), (forall k b, length (aes k b) = 16%nat) ->
+    forall prefix key nonce p ad c c' ad',
+      length nonce = 12%nat -> siv_enc aes prefix key nonce p ad = Ok c -> (c', ad') <> (c, ad) ->
+      (forall p', siv_dec aes prefix key c' ad' = Ok p' ->
+         exists nonce', length nonce' = 12%nat /\ (nonce', p', ad') <> (nonce, p, ad) /\
+           c' = prefix ++ nonce' ++ sctr aes (dk_enc aes key nonce') (tagf aes key nonce' p' ad') p'
+                       ++ tagf aes key nonce' p' ad') /\
+      ((forall nonce' p', length nonce' = 12%nat -> (nonce', p', ad') <> (nonce, p, ad) ->
+          c' <> prefix ++ nonce' ++ sctr aes (dk_enc aes key nonce') (tagf aes key nonce' p' ad') p'
+                       ++ tagf aes key nonce' p' ad') ->
+       siv_dec aes prefix key c' ad' = Err).
+Proof.
+  intros aes HA prefix key nonce p ad c c' ad' Hn He Hne. split.
+  - intros p' Hd. exact (siv_accepted_mutant_is_tag_forgery aes HA prefix key nonce p ad c c' ad' p' Hn He Hne Hd).
+  - intros Hnf. exact (siv_mutant_rejected_without_forgery aes HA prefix key nonce p ad c c' ad' Hn He Hne Hnf).
+Qed.
+Print Assumptions C02_aesgcmsiv_mutants.
+
+Theorem C02_aesgcmsiv_decrypt_is_framing_then_tag_check :
+  forall (aes : bytes -> bytes -> bytes), (forall k b, length (aes k b) = 16%nat) ->
+    forall prefix key c' ad',
+      ((has_prefix c' prefix = false \/ (length c' < length prefix + 12 + 16)%nat \/
+        MaxInt32 < lenN c' - lenN prefix \/ MaxInt32 < lenN ad') /\ siv_dec aes prefix key c' ad' = Err) \/
+      (exists nonce' ct' tag', c' = prefix ++ nonce' ++ ct' ++ tag' /\ length nonce' = 12%nat /\ length tag' = 16%nat /\
+         let pt' := sctr aes (dk_enc aes key nonce') tag' ct' in
+         siv_dec aes prefix key c' ad' = if beq (tagf aes key nonce' pt' ad') tag' then Ok pt' else Err).
+Proof. intros aes HA prefix key c' ad'. exact (siv_dec_framing aes HA prefix key c' ad'). Qed.
+Print Assumptions C02_aesgcmsiv_decrypt_is_framing_then_tag_check.
+
+(* ------------------------------------------------------------------------- *)
+(* KMS envelope, closed over the data-key AEADs (model/EnvelopeDek.v): dek_rt and dek_only
+   are PROVED (from the exact-acceptance theorems of AES-GCM, ChaCha20-Poly1305,
+   XChaCha20-Poly1305 under the laws of the standard AEAD, and of AES-GCM-SIV from the
+   model); only the key-encryption AEAD stays abstract with its two laws explicit *)
+Theorem C02_envelope_accepts_exactly_closed :
+  forall (aes : bytes -> bytes -> bytes) gcm_seal gcm_open cc_seal cc_open xcc_seal xcc_open,
+    (forall k b, length (aes k b) = 16%nat) ->
+    std_aead gcm_seal gcm_open gcm_seal_max -> std_aead cc_seal cc_open chacha_seal_max ->
+    std_aead xcc_seal xcc_open chacha_seal_max ->
+    forall kek_enc kek_dec kivlen, kek_rt kek_enc kek_dec kivlen -> kek_only kek_enc kek_dec kivlen ->
+    forall kd c ad p, wfb c ->
+      (env_dec kek_dec (dek_dec aes gcm_open cc_open xcc_open kd) c ad = Ok p <->
+       exists dek kekiv dekiv, length kekiv = kivlen /\ length dekiv = dek_ivlen kd /\
+         env_enc kek_enc (dek_enc aes gcm_seal cc_seal xcc_seal kd) dek kekiv dekiv p ad = Ok c).
+Proof.
+  intros aes gs go cs co xs xo HA HG HC HX ke kd kl HK HKO kind c ad p Hw.
+  exact (env_accept_iff_closed aes gs go cs co xs xo HA HG HC HX ke kd kl kind c ad p HK HKO Hw).
+Qed.
+Print Assumptions C02_envelope_accepts_exactly_closed.
+
+(* Decrypt of the envelope never panics when the key-encryption AEAD's Decrypt does not
+   (the data-key side is proved panic-free, whatever the primitives answer) *)
+Theorem C02_envelope_never_panics_closed :
+  forall (aes : bytes -> bytes -> bytes) (gcm_open cc_open xcc_open : aead_open),
+    (forall k b, length (aes k b) = 16%nat) ->
+    forall kek_dec, (forall c ad, kek_dec c ad <> Panic) ->
+    forall kd c ad, env_dec kek_dec (dek_dec aes gcm_open cc_open xcc_open kd) c ad <> Panic.
+Proof.
+  intros aes go co xo HA kd HK kind c ad. apply env_dec_no_panic; [exact HK|].
+  intros dek c0 ad0. unfold dek_dec. destruct (dek_parse kind dek) as [k|]; [|discriminate].
+  assert (Hn : forall m, Some chacha_open_max = Some m ->
+             lenN c0 <= m \/ exists m', Some chacha_tink_ct_max = Some m' /\ m' <= m).
+  { intros m E; inversion E. right. exists chacha_tink_ct_max. split; [reflexivity|]. vm_compute. discriminate. }
+  destruct kind; cbn [dek_prim_dec].
+  - unfold aesgcm_dec. rewrite dec_lenfirst_canon. apply na_dec_no_panic. intros m; discriminate.
+  - unfold chacha_dec. rewrite dec_prefixfirst_canon. apply na_dec_no_panic. exact Hn.
+  - destruct (N.le_gt_cases (lenN c0) MaxInt) as [Hm|Hm].
+    + exact (proj1 (proj2 (C02_chacha_decrypt_never_panics xo [] k c0 ad0 Hm))).
+    + unfold xchacha_dec, na_dec_lenprefix. destruct (Nat.ltb _ _); [discriminate|].
+      destruct (N.ltb_spec MaxInt (lenN c0)); [discriminate|lia].
+  - apply (siv_dec_no_panic aes HA).
+Qed.
+Print Assumptions C02_envelope_never_panics_closed.
+
+(* Non-vacuity of the stretch theorems.  (1) The forgery event of the reductions is real, not
+   an artefact: with a constant MAC / the toy AEAD (which have no authenticity) a body bit flip
+   IS accepted and is a forgery in the stated sense.  (2) The premises of the rejection
+   theorems are met: a MAC that copies its input / a tag flip under the toy AEAD (which
+   satisfies the uniqueness and body-injectivity laws) is rejected. *)
+Example C02_stretch_nonvacuous :
+  (let c := match etm_enc toy_aes toy_hmac_const [] toy_key (zeros 12) [1; 2; 3] [9] with Ok c => c | _ => [] end in
+   let c' := flip_bit 13 0 c in
+   etm_dec toy_aes toy_hmac_const [] toy_key c' [9] = Ok [1; 3; 3] /\
+   hmac_forgery toy_hmac_const toy_key (mac_input [9] (zeros 12 ++ [1; 2; 3]))
+                (mac_input [9] (payload_of 0 toy_key c')) (tag_of toy_key c')) /\
+  (let c := match etm_enc toy_aes toy_hmac_copy [] toy_key (zeros 12) [1; 2; 3] [9] with Ok c => c | _ => [] end in
+   let c' := flip_bit 13 0 c in
+   (c', [9]) <> (c, [9]) /\ tag_of toy_key c' = tag_of toy_key c /\
+   etm_dec toy_aes toy_hmac_copy [] toy_key c' [9] = Err) /\
+  seal_body_inj toy_seal /\
+  (let c := match aesgcm_enc toy_seal (output_prefix VTink 258) [7] (zeros 12) [1; 2; 3] [9] with Ok c => c | _ => [] end in
+   na_dec_canon (toy_open gcm_seal_max) 12 16 None None (output_prefix VTink 258) [7] (flip_bit 18 0 c) [9] = Ok [1; 3; 3] /\
+   na_dec_canon (toy_open gcm_seal_max) 12 16 None None (output_prefix VTink 258) [7] (flip_bit 25 3 c) [9] = Err).
+Proof.
+  split; [exact etm_forgery_event_is_real|]. split.
+  { destruct etm_rejection_premises_inhabited as [_ [H1 [H2 H3]]]. auto. }
+  split; [exact toy_body_inj|]. split.
+  - exact (proj1 na_forgery_event_is_real).
+  - destruct na_tag_only_premises_inhabited as [_ [_ [_ [_ H]]]]. exact H.
+Qed.
